@@ -268,7 +268,19 @@ func toNative(x value, t reflect.Type) reflect.Value {
 	case reflect.Int32:
 		return reflect.ValueOf(int32(asInt64(x)))
 	case reflect.Bool:
-		return reflect.ValueOf(x.(bool))
+		b, ok := x.(bool)
+		if !ok {
+			panic(unsupported{"symbolic Boolean crosses the native bridge in " + curIntrinsic})
+		}
+		return reflect.ValueOf(b)
+	case reflect.Int64:
+		return reflect.ValueOf(asInt64(x))
+	case reflect.Float64:
+		f, ok := x.(float64)
+		if !ok {
+			panic(unsupported{"symbolic float crosses the native bridge in " + curIntrinsic})
+		}
+		return reflect.ValueOf(f)
 	case reflect.Slice:
 		xs := x.([]value)
 		out := reflect.MakeSlice(t, len(xs), len(xs))
@@ -286,8 +298,23 @@ func fromNative(v reflect.Value) value {
 		return v.String()
 	case reflect.Int:
 		return int(v.Int())
+	case reflect.Int32:
+		return int32(v.Int())
+	case reflect.Int64:
+		return v.Int()
+	case reflect.Uint8:
+		return uint8(v.Uint())
+	case reflect.Float64:
+		return v.Float()
 	case reflect.Bool:
 		return v.Bool()
+	case reflect.Interface:
+		if v.IsNil() {
+			return iface{}
+		}
+		if err, ok := v.Interface().(error); ok {
+			return mkErr(err.Error())
+		}
 	case reflect.Slice:
 		if v.IsNil() {
 			return []value(nil)
